@@ -4,6 +4,9 @@ import Sudachi.Proofs.RewriteNumeral
 import Sudachi.Proofs.RewriteIdem
 import Sudachi.Proofs.RewriteF3
 import Sudachi.Proofs.RewriteLocal
+import Sudachi.Proofs.RewriteSafe
+import Sudachi.Proofs.RewriteCommute
+import Sudachi.Proofs.RewriteNoErr
 /-!
 # C14 — Path-rewrite plugins only merge adjacent tokens and preserve the text
 
@@ -937,5 +940,231 @@ theorem numeral_cut_needs_sep_not_first_counterexample :
 rejects a leading separator; `1|2|あ|1|2` is joined on both sides of `あ` -/
 example : Resets [16, 16, 64] dX ∧ isKatakana [16, 16, 64] dX = .ok false ∧ dX.b ≤ dX.e ∧ SepNotFirst f3P :=
   ⟨⟨64, by decide, by decide, by decide, by decide⟩, by decide, by decide, by decide, by decide⟩
+
+/-! ### fourth round (depth): index safety — the plugin stack never panics on a path that tiles the text
+
+Every index operation of `JoinNumericPlugin::rewrite_gen` / `concat`, `JoinKatakanaOovPlugin::rewrite_gen`,
+`concat_nodes`, `concat_oov_nodes` is an explicit outcome of the model: `path[i]`, `path[i as usize - 1]`,
+`path[len - 1]`, `path[begin]`, `path[end - 1]` (`none => .panic`), `i as usize` for a negative `i`, `end - begin` in
+`concat` (usize; NEW in this round: `nconcat`'s branch `e < b`), `end_bytes - beg_bytes` (usize), the `u16` sum of the
+head-word lengths, `mod_cat[range]` / `mod_cat[offset]` (`catOfRange`, `canOovBow`), `num_codepts() = end - begin`
+(`isShorter`), `begin >= end => Err(InvalidRange)`; `path.drain(begin + 1..end)` is shown to be in range whenever it
+is reached (`concat_drain_in_range`).  Not modelled as outcomes (identities on the reachable domain): the casts
+`path.len() as i32`, `begin() as u16` (a path has at most 65535 nodes and the offsets come from `u16` fields).
+
+`Tiles cat nb path` (Proofs/RewriteSafe.lean; C01's `PathOk` on the C14 node type): adjacent nodes touch in
+characters and bytes, every node covers at least one character of the text (`cat` = its class table), byte ranges
+are not reversed, the path begins at `(0, 0)` and ends at `(cat.length, nb)`, and the head-word lengths of the whole
+path add up to less than 65536 (the sum of the lengths of the head words of the tokens of ONE text of at most 49149
+bytes).  `Safe` is `Tiles` without the two end conditions. -/
+
+/-- **The plugin stack never panics.**  For every path that tiles the text, every stack of the two plugins with any
+settings, every parser behaviour and BOTH variants of the numeral loop: `rewriteAll` is not a panic — it is `ok`, the
+documented `Err(InvalidRange)`, or (variant `cur` only, finding F2) out of fuel. -/
+theorem rewrite_stack_never_panics (v : NVariant) (cat : List Nat) (P : List Char → POut) (pls : List Plugin)
+    (nb : Nat) (path : List Node) (ht : Tiles cat nb path) : rewriteAll v cat P pls path ≠ .panic := by
+  intro h
+  rcases rewriteAll_safe v cat P pls path ht.safe with h' | h' | ⟨q, hq, _⟩ <;> rw [h] at * <;> contradiction
+
+/-- … and for the repaired loop (`fix`, the code as it is now) the outcome is `ok` with a path that tiles the text
+again, or `Err(InvalidRange)`: C03's hypothesis `hrew` and C01's `hrew`/`hkeep` for a rewrite built from this model. -/
+theorem rewrite_stack_ok_or_invalid_range (cat : List Nat) (P : List Char → POut) (pls : List Plugin)
+    (nb : Nat) (path : List Node) (ht : Tiles cat nb path) :
+    (∃ q, rewriteAll .fix cat P pls path = .ok q ∧ Tiles cat nb q) ∨ rewriteAll .fix cat P pls path = .err := by
+  rcases rewriteAll_safe .fix cat P pls path ht.safe with h | h | ⟨q, hq, _⟩
+  · exact absurd h (rewriteAll_fix_ne_fuel cat P pls path)
+  · exact .inr h
+  · exact .inl ⟨q, hq, rewriteAll_tiles .fix cat P pls nb path q ht hq⟩
+
+/-- A successful run of any stack (either variant) keeps the tiling: in particular every byte range of the result
+lies inside the text and is not reversed, so slicing the text by a node's byte range cannot fail. -/
+theorem rewrite_keeps_tiling (v : NVariant) (cat : List Nat) (P : List Char → POut) (pls : List Plugin) (nb : Nat)
+    (path q : List Node) (ht : Tiles cat nb path) (h : rewriteAll v cat P pls path = .ok q) :
+    Tiles cat nb q ∧ ∀ m ∈ q, m.b < m.e ∧ m.e ≤ cat.length ∧ m.bb ≤ m.eb ∧ m.eb ≤ nb := by
+  have hq := rewriteAll_tiles v cat P pls nb path q ht h
+  refine ⟨hq, fun m hm => ?_⟩
+  obtain ⟨h1, h2, h3⟩ := hq.safe.rng m hm
+  refine ⟨h1, h2, h3, ?_⟩
+  -- the end of `m` is at most the end of the last node
+  obtain ⟨pre, post, rfl⟩ := List.append_of_mem hm
+  cases hpost : lastE (m :: post) with
+  | none => simp [lastE] at hpost
+  | some y =>
+    have hl : lastE (pre ++ m :: post) = some y := by
+      rw [lastE_append_of_ne_nil pre (by simp)]; exact hpost
+    have hy := hq.last y hl
+    have hc : Contig (m :: post) := ((contig_append_iff pre (m :: post)).mp hq.safe.contig).2.1
+    have := chain_span (m :: post) (m.b, m.bb) y hc
+      (fun n hn => ⟨(hq.safe.rng n (by simp [List.mem_cons.mp hn |>.elim (fun h => Or.inr (Or.inl h)) (fun h => Or.inr (Or.inr h))])).1,
+        (hq.safe.rng n (by simp [List.mem_cons.mp hn |>.elim (fun h => Or.inr (Or.inl h)) (fun h => Or.inr (Or.inr h))])).2.2⟩)
+      (by simp [firstB]) hpost
+    -- m.eb ≤ (end of the chain) = nb
+    rw [hy] at this
+    cases post with
+    | nil =>
+      simp only [lastE, List.getLast?_singleton, Option.map_some, Option.some.injEq] at hpost
+      rw [hy] at hpost
+      simp only [Prod.mk.injEq] at hpost
+      omega
+    | cons b r =>
+      have hl' : lastE (b :: r) = some y := by
+        have := lastE_append_of_ne_nil [m] (b := b :: r) (by simp)
+        simp only [List.singleton_append] at this
+        rw [← this]; exact hpost
+      have := chain_span (b :: r) (b.b, b.bb) y hc.2.2
+        (fun n hn => ⟨(hq.safe.rng n (by simp [List.mem_cons.mp hn |>.elim (fun h => Or.inr (Or.inr (Or.inl h))) (fun h => Or.inr (Or.inr (Or.inr h)))])).1,
+          (hq.safe.rng n (by simp [List.mem_cons.mp hn |>.elim (fun h => Or.inr (Or.inr (Or.inl h))) (fun h => Or.inr (Or.inr (Or.inr h)))])).2.2⟩)
+        (by simp [firstB]) hl'
+      have e2 := hc.2.1
+      rw [hy] at this
+      simp only at this
+      omega
+
+/-- The numeral loop from ANY loop state with the invariant `NInv2` (`-1 ≤ i`, `begin_idx ≤ i`, `i < len` while a run
+is open) on a safe path, any fuel, any parser, both variants: never a panic; `ok` results are safe paths. -/
+theorem numeric_loop_never_panics (v : NVariant) (cfg : NCfg) (cat : List Nat) (P : List Char → POut) (fuel : Nat)
+    (st : NState) (hs : Safe cat st.path) (hinv : NInv2 st) :
+    nloop v cfg cat P fuel st ≠ .panic ∧ ∀ q, nloop v cfg cat P fuel st = .ok q → Safe cat q := by
+  rcases nloop_safe v cfg cat P fuel st hs hinv with h | h | ⟨q, hq, hsq⟩
+  · rw [h]; exact ⟨by simp, by simp⟩
+  · rw [h]; exact ⟨by simp, by simp⟩
+  · rw [hq]; exact ⟨by simp, fun q' h' => by cases h'; exact hsq⟩
+
+/-- `InvalidRange` comes only from the trailing-separator rule with an EMPTY range: `concat` on `[b, e]` with
+`b ≤ e ≤ len` of a safe path is `ok` (safe, not longer) unless `b = e`. -/
+theorem numeral_concat_never_panics (cfg : NCfg) (cat : List Nat) (P : List Char → POut) (path : List Node)
+    (hs : Safe cat path) (b e : Nat) (hb : b < path.length) (hbe : b ≤ e) (he : e ≤ path.length) (acc : List Char) :
+    (nconcat cfg P path b e acc = .err ∧ b = e) ∨
+      ∃ q, nconcat cfg P path b e acc = .ok q ∧ Safe cat q ∧ q.length ≤ path.length :=
+  nconcat_safe cfg P hs b e hb hbe he acc
+
+/-- The katakana joiner on a safe path always returns `ok` — no panic, no `InvalidRange`, within the driver's fuel —
+and the result is safe. -/
+theorem join_katakana_never_fails (cfg : KCfg) (cat : List Nat) (path : List Node) (hs : Safe cat path) :
+    ∃ q, joinKatakana cfg cat path = .ok q ∧ Safe cat q := by
+  rcases kloop_safe cfg cat (kFuel path) path 0 hs with h | h
+  · exact absurd h (kloop_terminates cfg cat _ path 0 (by unfold kFuel; omega))
+  · exact h
+
+/-- Both concatenation functions on a non-empty block `[b, e)` inside a safe path succeed: `path[end - 1]`,
+`path[begin]`, `end_bytes - beg_bytes` and the `u16` sum of head-word lengths are all in range. -/
+theorem concat_never_panics (cat : List Nat) (path : List Node) (hs : Safe cat path) (b e : Nat) (hbe : b < e)
+    (he : e ≤ path.length) (nf : Option (List Char)) (posId : Nat) :
+    (∃ q, concatNodes path b e nf = .ok q ∧ Safe cat q) ∧ (∃ q, concatOovNodes path b e posId = .ok q ∧ Safe cat q) :=
+  ⟨concatNodes_safe hs b e hbe he nf, concatOovNodes_safe hs b e hbe he posId⟩
+
+/-- `path.drain(begin + 1..end)` is in range whenever either concatenation function reaches it (`begin + 1 ≤ end ≤
+len`), and the new length is `len - (end - (begin + 1))`: the model's `take b ++ m :: drop e` loses nothing. -/
+theorem concat_drain_in_range (path q : List Node) (b e : Nat) (nf : Option (List Char)) (posId : Nat) :
+    (concatNodes path b e nf = .ok q → b + 1 ≤ e ∧ e ≤ path.length ∧ q.length = path.length - (e - (b + 1))) ∧
+    (concatOovNodes path b e posId = .ok q → b + 1 ≤ e ∧ e ≤ path.length ∧ q.length = path.length - (e - (b + 1))) :=
+  ⟨drain_in_range, drain_in_range_oov⟩
+
+/-- The driver's per-run outcome classes (op `plug`) end in exactly `rewriteAll`. -/
+theorem trace_is_rewrite_all (v : NVariant) (cat : List Nat) (P : List Char → POut) (pls : List Plugin)
+    (path : List Node) : (rewriteTrace v cat P pls path).2 = rewriteAll v cat P pls path :=
+  rewriteTrace_snd v cat P pls path
+
+/-! #### the hypothesis cannot be dropped: each index operation does fail off the tiling (model = implementation,
+directed cases of op `plug`) -/
+
+def sA : Node := { dA with hwl := 1 }
+def sB : Node := { dB with hwl := 1 }
+
+/-- Without the tiling every panic outcome is reachable (the same inputs make the real code panic, op `plug`):
+a node that ends beyond the text (`mod_cat[range]`), head-word lengths that add up to 65536 (`u16`), a reversed byte
+range (`end_bytes - beg_bytes`), a reversed character range under the katakana joiner (`num_codepts()`), and the
+`usize` subtraction in `concat` for `end < begin` (not reachable from `rewrite_gen`: `NInv2`). -/
+theorem never_panics_needs_tiling_counterexample (v : NVariant) :
+    joinNumeric v { numPos := 1, enableNormalize := false } [16, 16] pAll [sA, { sB with e := 3 }] = .panic ∧
+    joinNumeric v { numPos := 1, enableNormalize := false } [16, 16] pAll
+      [{ sA with hwl := 40000 }, { sB with hwl := 25536 }] = .panic ∧
+    joinNumeric v { numPos := 1, enableNormalize := false } [16, 16] pAll [{ sA with bb := 7 }, sB] = .panic ∧
+    joinKatakana { oovPos := 5, minLength := 1 } [128, 128] [{ kA with b := 2, e := 1, wid := 3 }] = .panic ∧
+    nconcat { numPos := 1, enableNormalize := false } pAll [sA, sB] 1 0 [] = .panic := by
+  cases v <;> decide
+
+/-- non-vacuity: `Tiles` / `Safe` / `NInv2` are inhabited (the path `1|2|あ` over 3 characters / 5 bytes), and the
+stack N,K on it is `ok` -/
+example : Tiles [16, 16, 64] 5 [dA, dB, dX] ∧ NInv2 (nInit [dA, dB, dX]) := by
+  refine ⟨⟨⟨⟨rfl, rfl, rfl, rfl, trivial⟩, ?_, by decide⟩, ?_, ?_, by simp⟩, nInit_inv2 _⟩
+  · intro n hn
+    simp only [List.mem_cons, List.not_mem_nil, or_false] at hn
+    rcases hn with rfl | rfl | rfl <;> decide
+  · intro x hx; simp only [firstB, List.head?_cons, Option.map_some, Option.some.injEq] at hx; rw [← hx]; rfl
+  · intro x hx; rw [← Option.some.inj hx]; rfl
+
+/-- The `u16` hypothesis of `Tiles` from per-node facts: if every node's head-word length is at most its byte length
+(`head_word_length` IS the byte length of the trie key of a dictionary word resp. of the surface of an OOV node; the
+harness checks `hwl ≤ eb - bb` on every node of every analysed path, key `c14:assumption:hwl-le-bytes`) and the
+lookup text has fewer than 65536 bytes (`resolve_edits`' guard, C07), then a contiguous path over the text tiles it. -/
+theorem tiles_from_node_bounds (cat : List Nat) (nb : Nat) (path : List Node) (hc : Contig path)
+    (hr : ∀ n ∈ path, n.b < n.e ∧ n.e ≤ cat.length ∧ n.bb ≤ n.eb ∧ n.hwl ≤ n.eb - n.bb)
+    (hf : ∀ x, firstB path = some x → x = (0, 0)) (hl : ∀ x, lastE path = some x → x = (cat.length, nb))
+    (he : path = [] → cat = [] ∧ nb = 0) (hnb : nb < 65536) : Tiles cat nb path :=
+  tiles_of_node_bounds cat nb path hc hr hf hl he hnb
+
+/-! #### `Err(InvalidRange)` is unreachable for the real parser -/
+
+/-- **The plugin stack always succeeds** on a path that tiles the text when the parser rejects `,` and `.` as the first
+character of a number (`SepNotFirst`, true of the real `NumericParser`: the harness ships its answers for `,` and `.`
+whenever a separator node exists): repaired loop — `ok` with a path that tiles the text again, no panic, no
+`InvalidRange`, within the driver's fuel.  With this the plugin stage of `do_tokenize` cannot fail at all (C03). -/
+theorem rewrite_stack_always_ok (cat : List Nat) (P : List Char → POut) (hP : SepNotFirst P) (pls : List Plugin)
+    (nb : Nat) (path : List Node) (ht : Tiles cat nb path) :
+    ∃ q, rewriteAll .fix cat P pls path = .ok q ∧ Tiles cat nb q := by
+  rcases rewriteAll_ok .fix cat P hP pls path ht.safe with h | ⟨q, hq, _⟩
+  · exact absurd h (rewriteAll_fix_ne_fuel cat P pls path)
+  · exact ⟨q, hq, rewriteAll_tiles .fix cat P pls nb path q ht hq⟩
+
+/-- … for both variants and loop level: from any loop state with the invariants (`NInv2`, and `NOne`: while the open run
+is ONE node the parser has accepted exactly that node's normalised form) the numeral loop is out of fuel (variant `cur`,
+F2) or `ok`. -/
+theorem numeric_loop_never_invalid_range (v : NVariant) (cfg : NCfg) (cat : List Nat) (P : List Char → POut)
+    (hP : SepNotFirst P) (fuel : Nat) (st : NState) (hs : Safe cat st.path) (hinv : NInv2 st) (hone : NOne P st) :
+    nloop v cfg cat P fuel st = .fuel ∨ ∃ q, nloop v cfg cat P fuel st = .ok q ∧ Safe cat q :=
+  nloop_ok v cfg cat P hP fuel st hs hinv hone
+
+/-- `SepNotFirst` cannot be dropped: with a parser that ACCEPTS a lone `,` (pending COMMA error) and `enableNormalize`,
+the path `,|x` (it tiles a 2-character text; the `,` carries the numeral part of speech) makes the trailing-separator
+rule call `concat_nodes(path, 0, 0, ..)`: `Err(InvalidRange)`, both variants. -/
+theorem invalid_range_needs_accepting_parser_counterexample (v : NVariant) :
+    joinNumeric v { cxCfg with enableNormalize := true } cxCat cxP [cxNode 0 [','], cxNode 1 ['x']] = .err ∧
+      ¬ SepNotFirst cxP := by
+  refine ⟨by cases v <;> decide, fun h => absurd h.1 (by decide)⟩
+
+/-- non-vacuity of `NOne` and `SepNotFirst` -/
+example : NOne f3P (nInit f3path) ∧ SepNotFirst f3P := ⟨nInit_one f3P f3path, by decide, by decide⟩
+
+/-! #### commutation of the two plugins -/
+
+/-- **Commutation, PARTIAL.**  Full statement wanted: `rewriteAll v cat P [N, K] path = rewriteAll v cat P [K, N] path`
+whenever no node of `path` is both katakana by class and a numeral candidate (numeric by class, or an armed separator).
+Proved: the instance in which the numeral joiner has nothing to join — no token of the path carries the numeral part of
+speech and the katakana joiner's `oovPOS` is not the numeral one: when both orders succeed they return the same path,
+namely the katakana joiner's result (the numeral joiner is the identity before it, `no_numeral_no_join`, and after it,
+because every token the katakana joiner makes carries `oovPOS`).
+MISSING for the full statement, on top of the locality theorems `katakana_cut_at_non_katakana` and
+`numeral_cut_at_resetting_node`: (a) `joinKatakana` is the identity on a list without katakana nodes and `joinNumeric` on
+a list of resetting nodes, as EQUATIONS of outcomes (here only for `ok` results); (b) the numeral joiner maps katakana-free
+lists to katakana-free lists (`cat_of_range` is an AND over the joined range, as in `merged_separator_token_not_numeric`)
+and the katakana joiner maps resetting nodes to resetting nodes; (c) the induction over the alternating segments.
+When the side condition fails the statement is false: `plugin_order_matters_counterexample`. -/
+theorem plugins_commute_partial (v : NVariant) (cat : List Nat) (P : List Char → POut) (n : NCfg) (k : KCfg)
+    (path r r' : List Node) (hno : ∀ x ∈ path, x.pos ≠ n.numPos) (hpos : k.oovPos ≠ n.numPos)
+    (h1 : rewriteAll v cat P [.numeric n, .katakana k] path = .ok r)
+    (h2 : rewriteAll v cat P [.katakana k, .numeric n] path = .ok r') :
+    r = r' ∧ joinKatakana k cat path = .ok r :=
+  commute_of_no_numeral v cat P n k path r r' hno hpos h1 h2
+
+/-- the hypotheses are satisfiable with a real join: `ア|イ` (POS 0, numeral POS 1, `oovPOS` 5) is joined to `アイ` in
+both orders -/
+example (v : NVariant) :
+    (∀ x ∈ [kA, kI], x.pos ≠ ({ numPos := 1, enableNormalize := false } : NCfg).numPos) ∧
+    rewriteAll v [128, 128] pAll [.numeric { numPos := 1, enableNormalize := false },
+      .katakana { oovPos := 5, minLength := 0 }] [kA, kI] = .ok [mAI] ∧
+    rewriteAll v [128, 128] pAll [.katakana { oovPos := 5, minLength := 0 },
+      .numeric { numPos := 1, enableNormalize := false }] [kA, kI] = .ok [mAI] := by
+  cases v <;> decide
 
 end C14
